@@ -17,6 +17,7 @@ import (
 	"strings"
 	"sync"
 	"sync/atomic"
+	"syscall"
 	"time"
 
 	oci "github.com/opencontainers/runtime-spec/specs-go"
@@ -29,14 +30,14 @@ func init() { register("stress", stressMain) }
 const stressKind = "v1.com/cls"
 
 func stressContent(v int) []byte {
-	names := []string{"x", "y"}
+	names := []string{"a", "x", "y"}
 	if v == 2 {
-		names = []string{"y", "z"}
+		names = []string{"b", "x", "y"}
 	}
 	s := &specs.Spec{Version: "0.3.0", Kind: stressKind}
 	s.ContainerEdits.Env = []string{fmt.Sprintf("SPEC=%d", v)}
 	for _, n := range names {
-		s.Devices = append(s.Devices, specs.Device{Name: n, ContainerEdits: specs.ContainerEdits{Env: []string{fmt.Sprintf("DEV=%s-%d", n, v)}}})
+		s.Devices = append(s.Devices, specs.Device{Name: n, ContainerEdits: specs.ContainerEdits{Env: []string{fmt.Sprintf("DEV=%s-%d", n, v), fmt.Sprintf("DEV_%s=%d", n, v)}}})
 	}
 	b, _ := json.Marshal(s)
 	return b
@@ -46,7 +47,6 @@ type stressProg struct {
 	Programs map[string][]string `json:"programs"`
 }
 
-var opSeq int // incremented from the "op" hook, i.e. under the cache lock: a dropped lock makes this very counter race
 
 func stressMain(args []string) int {
 	fs := flag.NewFlagSet("stress", flag.ExitOnError)
@@ -74,25 +74,58 @@ func stressMain(args []string) int {
 	target := filepath.Join(dir, "x.json")
 	_ = os.WriteFile(target, stressContent(1), 0o644)
 
+	// one counter per cache, incremented (non-atomically) inside its critical sections
+	var counters sync.Map // *sync.Mutex -> *int
 	cdi.VerifHook = func(point string, a ...interface{}) {
-		if point == "op" || point == "watch.locked" {
-			opSeq++
+		var key *sync.Mutex
+		switch point {
+		case "op":
+			if c, ok := a[0].(*cdi.Cache); ok {
+				key = &c.Mutex
+			}
+		case "watch.locked":
+			key, _ = a[0].(*sync.Mutex)
+		}
+		if key != nil {
+			p, _ := counters.LoadOrStore(key, new(int))
+			*(p.(*int))++
 		}
 	}
-	cache, _ := cdi.NewCache(cdi.WithSpecDirs(dir, dir2), cdi.WithAutoRefresh(true))
+	caches := []*cdi.Cache{}
+	c0, _ := cdi.NewCache(cdi.WithSpecDirs(dir, dir2), cdi.WithAutoRefresh(true))
+	caches = append(caches, c0)
+	// a second cache created while no descriptor is available for a watcher: every query of it rescans
+	{
+		var old syscall.Rlimit
+		_ = syscall.Getrlimit(syscall.RLIMIT_NOFILE, &old)
+		lim := syscall.Rlimit{Cur: uint64(countResources().Fds + 1), Max: old.Max}
+		_ = syscall.Setrlimit(syscall.RLIMIT_NOFILE, &lim)
+		c1, _ := cdi.NewCache(cdi.WithSpecDirs(dir), cdi.WithAutoRefresh(true))
+		_ = syscall.Setrlimit(syscall.RLIMIT_NOFILE, &old)
+		if len(c1.GetErrors()) > 0 {
+			caches = append(caches, c1)
+			col.count("caches_without_watcher", 1)
+		} else {
+			_ = c1.Configure(cdi.WithAutoRefresh(false))
+		}
+	}
 	var progress int64
 	var stop int32
 	var mu sync.Mutex
 	mixed := func(what string, got interface{}) {
 		mu.Lock()
 		defer mu.Unlock()
-		col.add(Mismatch{Props: []string{"C12"}, What: "result-is-neither-of-the-two-states", Want: "content 1 {x,y} or content 2 {y,z}, completely", Got: got, Note: what})
+		col.add(Mismatch{Props: []string{"C12"}, What: "result-is-neither-of-the-two-states", Want: "content 1 {a,x,y} or content 2 {b,x,y}, completely", Got: got, Note: what})
 	}
 	sameVersion := func(env []string) bool {
 		sv, dv := envVal(env, "SPEC"), envVal(env, "DEV")
 		return sv != "" && strings.HasSuffix(dv, "-"+sv)
 	}
 	doOp := func(client int, op string) {
+		cache := caches[client%len(caches)]
+		if cache != c0 && (op == "Configure" || op == "WriteSpec" || op == "RemoveSpec") {
+			cache = c0 // the watcher-less cache keeps its configuration
+		}
 		switch op {
 		case "ListDevices":
 			var got []string
@@ -102,7 +135,7 @@ func stressMain(args []string) int {
 				}
 			}
 			sort.Strings(got)
-			if s := strings.Join(got, ","); s != "x,y" && s != "y,z" {
+			if s := strings.Join(got, ","); s != "a,x,y" && s != "b,x,y" {
 				mixed("ListDevices", got)
 			}
 		case "GetDevice":
@@ -111,14 +144,15 @@ func stressMain(args []string) int {
 				mixed("GetDevice(y) unresolved", nil)
 			} else {
 				v := envVal(d.GetSpec().ContainerEdits.Env, "SPEC")
-				if envVal(d.ContainerEdits.Env, "DEV") != "y-"+v || len(d.GetSpec().Devices) != 2 {
+				if envVal(d.ContainerEdits.Env, "DEV") != "y-"+v || len(d.GetSpec().Devices) != 3 {
 					mixed("GetDevice(y)", fmt.Sprint(d.ContainerEdits.Env, d.GetSpec().ContainerEdits.Env))
 				}
 			}
 		case "InjectDevices":
 			sp := &oci.Spec{}
-			if _, err := cache.InjectDevices(sp, stressKind+"=y"); err != nil || sp.Process == nil || !sameVersion(sp.Process.Env) {
-				mixed("InjectDevices(y)", fmt.Sprint(err, sp.Process))
+			if _, err := cache.InjectDevices(sp, stressKind+"=x", stressKind+"=y"); err != nil || sp.Process == nil || !sameVersion(sp.Process.Env) ||
+				envVal(sp.Process.Env, "DEV_x") != envVal(sp.Process.Env, "SPEC") || envVal(sp.Process.Env, "DEV_y") != envVal(sp.Process.Env, "SPEC") {
+				mixed("InjectDevices(x, y)", fmt.Sprint(err, sp.Process))
 			}
 		case "ListVendors":
 			if v := cache.ListVendors(); len(v) == 0 {
@@ -130,7 +164,7 @@ func stressMain(args []string) int {
 				for _, d := range s.Devices {
 					n = append(n, d.Name)
 				}
-				if j := strings.Join(n, ","); j != "x,y" && j != "y,z" {
+				if j := strings.Join(n, ","); j != "a,x,y" && j != "b,x,y" {
 					mixed("GetVendorSpecs", n)
 				}
 				_ = cache.GetSpecErrors(s)
@@ -168,7 +202,6 @@ func stressMain(args []string) int {
 			tmp := filepath.Join(stage, fmt.Sprintf("s%d", i%4))
 			_ = os.WriteFile(tmp, stressContent(v), 0o644)
 			_ = os.Rename(tmp, target)
-			atomic.AddInt64(&progress, 1)
 			time.Sleep(150 * time.Microsecond)
 		}
 	}()
@@ -221,11 +254,17 @@ func stressMain(args []string) int {
 	}
 	atomic.StoreInt32(&stop, 1)
 	wg.Wait()
-	_ = cache.Configure(cdi.WithAutoRefresh(false))
+	for _, c := range caches {
+		_ = c.Configure(cdi.WithAutoRefresh(false))
+	}
 	col.count("operations", int(atomic.LoadInt64(&progress)))
 	col.count("rounds", nrounds)
-	cache.Lock()
-	col.count("critical_sections_counted", opSeq)
-	cache.Unlock()
+	for _, c := range caches {
+		c.Lock()
+		if p, ok := counters.Load(&c.Mutex); ok {
+			col.count("critical_sections_counted", *(p.(*int)))
+		}
+		c.Unlock()
+	}
 	return col.finish(start)
 }
